@@ -114,28 +114,55 @@ Proof.
   - intros; eapply mk_same; eauto.
 Qed.
 
-(* moving the pc / finishing an operation with G fixed *)
+(* moving the pc / finishing an operation *)
 Lemma linv_goto g t l p :
-  LInv g t l ->
+  length (hs l) = opi l -> HsOk g t (hs l) ->
   (forall h, inflight p = Some h -> (h_inc h < length (incs g))%nat) ->
   pc_ok g t (goto l p) -> (forall i, marker (goto l p) = Some i -> mkP g i) ->
   LInv g t (goto l p).
-Proof. intros (L1 & L2 & _) H3 H4 H5. unfold LInv. cbn [goto hs opi at_pc]. auto. Qed.
+Proof. intros L1 L2 H3 H4 H5. unfold LInv. cbn [goto hs opi at_pc]. auto. Qed.
 
 Lemma linv_finish g t l x :
-  LInv g t l ->
+  length (hs l) = opi l -> HsOk g t (hs l) ->
   (forall h, x = Some h -> (h_inc h < length (incs g))%nat /\ h_own h = false /\ h_id h = opi l /\ att g t h) ->
   LInv g t (finish l x).
 Proof.
-  intros (L1 & L2 & _) Hx. unfold LInv, finish, pc_ok, marker. cbn [hs opi at_pc inflight].
+  intros L1 L2 Hx. unfold LInv, finish, pc_ok, marker. cbn [hs opi at_pc inflight].
   split; [rewrite app_length; cbn; lia|]. split.
   - apply hsok_app; auto. rewrite L1. exact Hx.
   - split; [intros h E; discriminate|]. split; [exact I|]. intros i E; discriminate.
 Qed.
 
-Lemma linv_clear g t l k : LInv g t l -> at_pc l = Idle -> LInv g t (clear_h l k).
+Lemma reserve_try c r n :
+  reserve_check c r = RsvTry n -> N.land c (rbit r) = 0 /\ N.land c MARKED = 0.
 Proof.
-  intros (L1 & L2 & L3 & L4 & L5) E. unfold LInv, clear_h, pc_ok, marker in *. cbn [hs opi at_pc]. rewrite E in *.
-  split; [rewrite upd_length; exact L1|]. split; [apply hsok_clear; exact L2|].
-  split; [intros h X; discriminate|]. split; [exact I|]. intros i X; discriminate.
+  unfold reserve_check. destruct (N.eqb_spec (N.land c (rbit r)) 0) as [A|A]; cbn [negb]; [|discriminate].
+  destruct (N.eqb_spec (N.land c MARKED) 0) as [B|B]; cbn [negb]; [|discriminate]. auto.
+Qed.
+
+Lemma att_set_own g t h b : att g t (set_own h b) <-> att g t h.
+Proof. unfold att, set_own; cbn [h_inc h_role h_id]. tauto. Qed.
+
+(* what a successful remove_state CAS does to G (before the saw_marked flag) *)
+Lemma detach_facts g i r c me :
+  (i < length (incs g))%nat -> i_st (get_inc g i) = c -> GInv g ->
+  let x := get_inc g i in
+  let new := remove_new c r in
+  let x' := if N.land c (rbit r) =? 0 then set_holder x r new (holder x r) else set_holder x r new None in
+  let g1 := if N.land c (rbit r) =? 0 then set_inc g i x' else steal (set_inc g i x') (holder x r) me in
+  GInv g1 /\ cur g1 = cur g /\ incs g1 = upd (incs g) i x' /\ unl g1 = unl g /\ saw_marked g1 = saw_marked g /\
+  i_st x' = new /\
+  (forall t' h', (t', h_id h') <> me -> att g t' h' -> att g1 t' h').
+Proof.
+  intros Hi Ec HG x new x' g1. subst x' g1.
+  destruct (N.land c (rbit r) =? 0) eqn:Eb.
+  - split; [apply ginv_detach_core; auto; rewrite Eb; reflexivity|].
+    repeat (split; [reflexivity|]). split; [apply st_set_holder|].
+    intros t' h' Hne A. apply (att_detach g t' h' i r new me false); auto.
+  - destruct (steal_fields (set_inc g i (set_holder x r new None)) (holder x r) me) as (F1 & F2 & F3 & F4).
+    split.
+    { eapply ginv_same; [exact F1|exact F2|exact F3|rewrite F4; auto|].
+      apply ginv_detach_core; auto. rewrite Eb. reflexivity. }
+    split; [exact F1|]. split; [exact F2|]. split; [exact F3|]. split; [exact F4|]. split; [apply st_set_holder|].
+    intros t' h' Hne A. apply (att_detach g t' h' i r new me true); auto.
 Qed.
